@@ -28,6 +28,30 @@ structure DriverState where
   /-- the clock of the last tick (hypothesis `C13.StepOkV` of the no-assertion theorem is evaluated at every step) -/
   clk : Int := 0
 
+/-- C02: every answer the SEQUENTIAL server (`C02.seqRun`: the same coroutine served alone) can give to request `tid` at
+    some instant of its window — database snapshots from its submission on × start ticks × ticks — as JSON (claim
+    responses without the attached promises), without duplicates; `none` when the request is unknown -/
+def linCandidates (st : DriverState) (sys : Sys) (tid : String) : Option (List Json) :=
+  match st.subs.find? (fun x => x.1 == tid) with
+  | none => none
+  | some (_, rq, snapIdx, tickIdx) =>
+    let t0s : List Int := match st.started.find? (fun x => x.1 == tid) with
+      | some (_, t0) => [t0]
+      | none => st.ticks.drop tickIdx
+    let route : Promise → Cpl := fun _ => match st.routes.find? (fun x => x.1 == tid) with
+      | some (_, c) => c
+      | none => .err
+    let window := st.snaps.drop snapIdx
+    let times := st.ticks.drop tickIdx
+    let strip : Resp → Resp
+      | .claim s tk _ _ rh lh => .claim s tk none none rh lh
+      | x => x
+    let all : List String := window.flatMap fun db => t0s.flatMap fun t0 => times.filterMap fun t =>
+      match (C02.seqRun sys.g route (rq.body sys.env t0) t 12 db ((rq.body sys.env t0) t)).2 with
+      | some r' => some (respToJson (strip r')).compress
+      | none => none
+    some (all.eraseDups.filterMap fun s => (Json.parse s).toOption)
+
 def defsOf (d : String) : SqlDefs := if d == "pg" then Gen.Pg.defs else Gen.Sqlite.defs
 
 def handleLine (st : DriverState) (line : String) : DriverState × Json :=
@@ -150,6 +174,13 @@ def handleLine (st : DriverState) (line : String) : DriverState × Json :=
                           | .dispatch id (.store tx) => if wfTx tx then none else some (id.tid ++ "#" ++ toString id.seq)
                           | _ => none)),
                        ("threads", toJson (sys'.threads.map (·.tid))), ("apiQ", toJson sys'.apiQ.length), ("hyp", hyp)])
+    | .ok "lin_candidates" =>
+      match st.sys, j.getObjValAs? String "tid" with
+      | some sys, .ok tid =>
+        match linCandidates st sys tid with
+        | some cs => (st, Json.mkObj [("found", true), ("candidates", Json.arr cs.toArray)])
+        | none => (st, Json.mkObj [("found", false)])
+      | _, _ => (st, Json.mkObj [("found", false)])
     | .ok "batch" =>
       let dialect := (j.getObjValAs? String "dialect").toOption.getD "sqlite"
       match (do
